@@ -110,7 +110,8 @@ func c20Body(cfg c20Cfg) (*c20Run, func()) {
 					case "get":
 						r.h.s.Get(op.k) // a hit ends in the read buffer; a full stripe is drained under the policy lock
 					case "tick":
-						vrt.Advance(2 * sec) // the maintenance ticker takes the policy lock
+						vrt.Advance(2 * sec)
+						vrt.Tick() // the maintenance ticker goroutine wakes up and takes the policy lock
 					case "wait":
 						r.clock++
 						called := r.clock
